@@ -21,6 +21,15 @@ type initReg struct {
 	regTxn    int
 }
 
+func contains(l []string, s string) bool {
+	for _, x := range l {
+		if x == s {
+			return true
+		}
+	}
+	return false
+}
+
 func sameSet(a, b []string) bool {
 	x := append([]string(nil), a...)
 	y := append([]string(nil), b...)
@@ -66,6 +75,17 @@ func (w *World) registerInit(t *simcore.Task, wt *WTxn, ti int) bool {
 		return true
 	}
 	r := &initReg{ti: ti, name: fmt.Sprintf("init%d", len(w.inits)), regTxn: wt.id}
+	// a name whose earlier registration is done may be registered again: a new initializer with an old name
+	var reuse []string
+	for _, o := range w.inits {
+		if o.ti == ti && o.done && !contains(st.Pending, o.name) && !contains(reuse, o.name) {
+			reuse = append(reuse, o.name)
+		}
+	}
+	if len(reuse) > 0 && w.C.Choose(2) == 0 {
+		r.name = reuse[w.C.Choose(len(reuse))]
+		w.probe("initializer-name-registered-again")
+	}
 	w.inits = append(w.inits, r)
 	if !w.guard("C19", "RegisterInitializer", func() { r.doneFn = tc.T.RegisterInitializer(wt.txn, r.name) }) {
 		return false
@@ -89,6 +109,23 @@ func (w *World) doneInit(t *simcore.Task, wt *WTxn, ti int) bool {
 		if r.committed || r.regTxn == wt.id {
 			cand = append(cand, r)
 		}
+	}
+	// the done function of an initializer whose mark is committed, called once more: it has nothing left to
+	// mark, also when its name has since been registered again
+	var spent []*initReg
+	for _, r := range w.inits {
+		if r.ti == ti && r.done {
+			spent = append(spent, r)
+		}
+	}
+	if len(spent) > 0 && w.C.Choose(3) == 0 {
+		r := spent[w.C.Choose(len(spent))]
+		if !w.guard("C19", "initializer done again", func() { r.doneFn(wt.txn) }) {
+			return false
+		}
+		w.S.Logf("T%d done function of the completed initializer %s of %s called again", wt.id, r.name, tc.M.Name)
+		w.probe("spent-done-function-called-again")
+		return w.checkInit(wt.txn, ti, st, fmt.Sprintf("T%d after calling the done function of the completed initializer %s again", wt.id, r.name))
 	}
 	if len(cand) == 0 {
 		return true
